@@ -156,6 +156,16 @@ def program_capture(kind, seed):
     lists = []
     if kind in ("tls_ok", "mixed"):
         lists.append(add_tls(0))
+    if kind == "tls_ok":
+        # full-size records carried by a single segment (loopback / TSO captures), IPv4 and IPv6
+        f = scen.tls_flow({"version": tls.TLS13, "suite": 0x1302, "history": [("c", 16384), ("s", 16384), ("s", 16331)]}, seed, 7, mss=65000)
+        ends[7] = f.ends
+        keylog.extend(f.keylog())
+        lists.append(f.pkts)
+        f = scen.tls_flow({"version": tls.TLS12, "suite": 0x002F, "history": [("s", 16384), ("c", 16384)]}, seed, 8, mss=65000, v6=True)
+        ends[8] = f.ends
+        keylog.extend(f.keylog())
+        lists.append(f.pkts)
     if kind in ("quic_ok", "mixed"):
         lists.append(add_quic(1))
     if kind in ("tls_nokeys", "mixed"):
